@@ -2,6 +2,7 @@ package nsim
 
 import (
 	"fmt"
+	"os"
 	"runtime/debug"
 	"sort"
 	"sync"
@@ -160,6 +161,7 @@ type Sched struct {
 	simTime    time.Duration
 	trace      []Seg
 	traceSites []int
+	rawTotal   int // yield points passed at disabled sites
 	hash       uint64
 	sitePairs  map[[2]int]int
 	lastSite   int
@@ -354,6 +356,13 @@ func (s *Sched) yield(site int) {
 		// a task spinning only through disabled sites must still be preemptible:
 		// after a long uninterrupted stretch the site counts as enabled
 		s.rawRun++
+		s.rawTotal++
+		if s.rawTotal > 20*s.plan.MaxSteps {
+			// an endless loop through disabled sites only: the step budget applies
+			s.steps = s.plan.MaxSteps + 1
+			s.park(t, site, tsParked)
+			return
+		}
 		if s.rawRun < 3000 {
 			return
 		}
@@ -558,6 +567,8 @@ func (s *Sched) harnessDone() bool {
 	return true
 }
 
+var dumpSegs *os.File
+
 func (s *Sched) closeSegment() {
 	if s.cur == nil {
 		return
@@ -568,6 +579,9 @@ func (s *Sched) closeSegment() {
 	s.hashStr(t.Name)
 	s.hashMix(uint64(s.segSteps))
 	s.hashMix(uint64(t.site)<<8 | uint64(t.state))
+	if dumpSegs != nil {
+		fmt.Fprintf(dumpSegs, "%s %d %s %d\n", t.Name, s.segSteps, siteName(t.site), t.state)
+	}
 	if s.inOp > 0 && t.state != tsDone {
 		s.preempts++
 	}
